@@ -1,8 +1,8 @@
 (* TOTALITY of the rANS Nx16 decoder model: on EVERY byte string the model of noodles' order-0
-   decoder (NV.Cram.Nx16O0.nxd0_decode, any state count > 0) and of the whole-stream decoder
-   (NV.Cram.Nx16Full.nx_decode_e: PACK / RLE / CAT in front of the order-0 coder, including the
-   entropy-compressed RLE meta-data branch) answers bytes, an io::Error or "unsupported" -- the
-   overflow-checked u32 arithmetic of state_step and `chunks_mut(0)` are unreachable.
+   decoder (NV.Cram.Nx16O0.nxd0_decode, any state count > 0) and of the RLE context reader
+   (NV.Cram.Nx16Full.rd_rle_ctx, including the entropy-compressed meta-data branch) answers bytes
+   or an io::Error -- the overflow-checked u32 arithmetic of state_step and `chunks_mut(0)` are
+   unreachable.  The whole-stream theorem (both orders) is in NV.Cram.Nx16O1Total.
 
    Shape of the argument: every reader hands on a suffix of its input, so the rest is still bytes;
    the normalised table adds up to at most 4096; the symbol search returns a symbol whose
@@ -208,18 +208,38 @@ Proof.
   - inversion H; subst. split; [exact Hs|exact HP].
 Qed.
 
-Lemma dec_step_ok s f g :
-  s < 4294967296 -> f <= 4096 -> g <= s mod 4096 ->
-  exists s1, dec_step 4096 s f g = ROk s1 /\ s1 < 4294967296.
+(* any total 0 < tot (noodles: 2^bits, bits <= 15): f <= tot gives f * (s / tot) + s mod tot <= s *)
+Lemma dec_step_ok_tot tot s f g :
+  0 < tot -> s < 4294967296 -> f <= tot -> g <= s mod tot ->
+  exists s1, dec_step tot s f g = ROk s1 /\ s1 < 4294967296.
 Proof.
-  intros Hs Hf Hg. unfold dec_step.
-  assert (Hq : s / 4096 < 1048576) by lia.
-  assert (Hm : s mod 4096 < 4096) by lia.
-  assert (Hp : f * (s / 4096) <= 4096 * (s / 4096)) by (apply N.mul_le_mono_r; exact Hf).
-  set (q := s / 4096) in *. set (m := s mod 4096) in *. set (p := f * q) in *.
+  intros Ht Hs Hf Hg. unfold dec_step.
+  pose proof (N.div_mod' s tot) as Hdm.
+  assert (Hp : f * (s / tot) <= tot * (s / tot)) by (apply N.mul_le_mono_r; exact Hf).
+  set (q := s / tot) in *. set (m := s mod tot) in *. set (p := f * q) in *.
+  set (t := tot * q) in *.
   unfold TWO32.
   destruct ((4294967296 <=? p + m) || (p + m <? g)) eqn:E; [exfalso; lia|].
   exists (p + m - g). split; [reflexivity|lia].
+Qed.
+
+Lemma dec_one_ok_tot tot F s bs :
+  0 < tot -> s < 4294967296 -> sumN F <= tot -> Forall byte bs ->
+  dec_one tot F (cumulative F) s bs <> RPanic /\
+  forall sym s2 bs', dec_one tot F (cumulative F) s bs = ROk (sym, s2, bs') ->
+    s2 < 4294967296 /\ Forall byte bs'.
+Proof.
+  intros Ht Hs HF HP. unfold dec_one.
+  set (sym := cfs (tl (cumulative F)) (s mod tot) 0).
+  pose proof (cfs_cum_le F (s mod tot)) as Hg. fold sym in Hg.
+  pose proof (nth_le_sumN F (N.to_nat sym)) as Hf.
+  destruct (dec_step_ok_tot tot s (nth (N.to_nat sym) F 0) (nth (N.to_nat sym) (cumulative F) 0)
+              Ht Hs) as [s1 [E1 Hs1]]; [lia|exact Hg|].
+  rewrite E1.
+  destruct (dec_renorm s1 bs) as [[s2 bs2]|] eqn:ER.
+  - split; [discriminate|]. intros sym' s2' bs' H. inversion H; subst.
+    eapply dec_renorm_ok; [exact Hs1|exact HP|exact ER].
+  - split; [discriminate|]. intros sym' s2' bs' H. discriminate.
 Qed.
 
 Lemma dec_one_ok F s bs :
@@ -227,19 +247,7 @@ Lemma dec_one_ok F s bs :
   dec_one 4096 F (cumulative F) s bs <> RPanic /\
   forall sym s2 bs', dec_one 4096 F (cumulative F) s bs = ROk (sym, s2, bs') ->
     s2 < 4294967296 /\ Forall byte bs'.
-Proof.
-  intros Hs HF HP. unfold dec_one.
-  set (sym := cfs (tl (cumulative F)) (s mod 4096) 0).
-  pose proof (cfs_cum_le F (s mod 4096)) as Hg. fold sym in Hg.
-  pose proof (nth_le_sumN F (N.to_nat sym)) as Hf.
-  destruct (dec_step_ok s (nth (N.to_nat sym) F 0) (nth (N.to_nat sym) (cumulative F) 0) Hs)
-    as [s1 [E1 Hs1]]; [lia|exact Hg|].
-  rewrite E1.
-  destruct (dec_renorm s1 bs) as [[s2 bs2]|] eqn:ER.
-  - split; [discriminate|]. intros sym' s2' bs' H. inversion H; subst.
-    eapply dec_renorm_ok; [exact Hs1|exact HP|exact ER].
-  - split; [discriminate|]. intros sym' s2' bs' H. discriminate.
-Qed.
+Proof. apply dec_one_ok_tot. lia. Qed.
 
 (* ---------- the symbol loop ---------- *)
 
@@ -344,55 +352,6 @@ Proof.
     split; [discriminate|]. intros meta' len' t' H. inversion H; subst. exact HPt2.
 Qed.
 
-(* For EVERY byte string and caller size the model of rans_nx16::decode -- PACK, RLE (verbatim or
-   entropy-compressed meta-data), CAT and the order-0 entropy coder with 4 or 32 states -- returns
-   bytes, an io::Error or reaches an unmodelled stage (STRIPE, order 1): no panicking path. *)
-Theorem nx_decode_e_never_panics : forall bs usize,
-  Forall (fun b => b < 256) bs -> nx_decode_e bs usize <> DPanic.
-Proof.
-  intros bs usize HP. unfold nx_decode_e. destruct bs as [|fb r0]; [discriminate|].
-  pose proof (Forall_inv_tail HP) as Hr0.
-  set (f := flags_of_byte fb). clearbody f.
-  destruct (if f_nosize f then U7Ok usize r0 else read_uint7 r0) as [size0 r1| |] eqn:E0;
-    try discriminate.
-  assert (Hr1 : Forall byte r1).
-  { destruct (f_nosize f); [inversion E0; subst; exact Hr0|].
-    eapply read_uint7_rest; [exact E0|exact Hr0]. }
-  destruct (f_stripe f); [discriminate|].
-  match goal with |- match ?x with _ => _ end <> _ =>
-    destruct x as [[[pctx size1] r2]|] eqn:E1 end; [|discriminate].
-  assert (Hr2 : Forall byte r2).
-  { destruct (f_pack f).
-    - destruct (rd_pack_ctx r1) as [[[table len] t]|] eqn:EP; [|discriminate].
-      inversion E1; subst. eapply rd_pack_ctx_rest; [exact EP|exact Hr1].
-    - inversion E1; subst. exact Hr1. }
-  destruct (rd_rle_ctx_ok (state_count f) r2 (state_count_pos f) Hr2) as [Hrnp Hrok].
-  match goal with |- match ?x with _ => _ end <> _ =>
-    destruct x as [[[rctx size2] r3]| |] eqn:E2 end.
-  - assert (Hr3 : Forall byte r3).
-    { destruct (f_rle f).
-      - destruct (rd_rle_ctx (state_count f) r2) as [[[meta len] t]| |] eqn:ER; try discriminate.
-        inversion E2; subst. eapply Hrok. reflexivity.
-      - inversion E2; subst. exact Hr2. }
-    match goal with |- match ?x with _ => _ end <> _ => destruct x as [d| | |] eqn:ED end;
-      try discriminate.
-    + destruct rctx as [meta|].
-      * destruct (rle_decode d meta (N.to_nat size1)) eqn:E; try discriminate.
-        -- destruct pctx; [apply pack_decode_never_panics|discriminate].
-        -- exfalso. exact (rle_decode_never_panics _ _ _ E).
-      * destruct pctx; [apply pack_decode_never_panics|discriminate].
-    + exfalso. destruct (f_cat f).
-      * destruct (split_off r3 (N.to_nat size2)) as [[payload rest]|]; discriminate.
-      * destruct (f_order f); [discriminate|].
-        pose proof (nxd0_decode_never_panics r3 (N.to_nat size2) (state_count f)
-                      (state_count_pos f) Hr3) as Hnp.
-        destruct (nxd0_decode r3 (N.to_nat size2) (state_count f)); try discriminate.
-        contradiction.
-  - discriminate.
-  - exfalso. destruct (f_rle f); [|discriminate].
-    destruct (rd_rle_ctx (state_count f) r2) as [[[meta len] t]| |]; try discriminate.
-    contradiction.
-Qed.
+(* nx_decode_e_never_panics (whole streams, both orders) is in NV.Cram.Nx16O1Total *)
 
 Print Assumptions nxd0_decode_never_panics.
-Print Assumptions nx_decode_e_never_panics.
